@@ -20,7 +20,7 @@ func init() {
 		ID: "C13",
 		Rule: "case = one curve with 0..120 (400 thorough) pairwise-distinct vertices (8%: with 1-3 later, non-adjacent copies of earlier vertices - spurs, pinches, inner loops - judged by searching for any admissible embedding; incrementally built random simple lines checked by the exact simplicity test, monotone lines, zigzags, spirals, 'hook' lines whose end returns near the start, near-collinear runs, and unfiltered random lines for the termination/subsequence/tolerance clauses) and a tolerance from {0, 1e-12 d, U(0,d), >d, +Inf}, simplified as LineString and as member of MultiLineString / ring of Polygon / MultiPolygon; " +
 			"monitors: a second high-volume phase of 'box walks' (6..40 vertices uniform in a box, exactly simple, 60% ending inside a pocket of three earlier consecutive vertices, tolerance U(0,0.4) of the box) aimed at multi-step back-off in one scan step; hooked step counter (output never longer than input, loop steps <= 4n^2+100) turning non-termination into a finite violation; output is an order-preserving subsequence keeping first and last vertex; every dropped vertex within tol(1+1e-12) of its replacing segment (extended precision); exact simplicity of the output when the input is exactly simple; input unmodified; members simplified independently; " +
-			"a third phase 'far_vertex': an ordinary simple box walk whose first or last vertex (or both) is moved out to 1e20..1e300 (axis-parallel, diagonal or oblique), 20% with the ordinary part itself 1e-60..1e-3 in size (far vertices then up to 1e200), 8% with both ends in the last binade on opposite sides (their difference is no float64); judged with a rounding slack of 64 times what one ulp of each coordinate of the vertex and of the two ends can change the distance by (an X ordinate counts with |uy|, a Y ordinate with |ux| of the unit vector along the segment when the vertex projects into it), so that an ordinary vertex hundreds of units off a segment reaching out to 1e200 must be kept; an evaluation is one Simplify call judged; non-trivial = simple input with >= 4 vertices from which at least one vertex was dropped; distinct by input hash",
+			"a third phase 'far_vertex': an ordinary simple box walk whose first or last vertex (or both) is moved out to 1e20..1e300 (axis-parallel, diagonal or oblique), 20% with the ordinary part itself 1e-120..1e-3 in size (then one far end only), 8% with both ends in the last binade on opposite sides (their difference is no float64); judged with a rounding slack of 64 times what one ulp of each coordinate of the vertex and of the two ends can change the distance by (an X ordinate counts with |uy|, a Y ordinate with |ux| of the unit vector along the segment when the vertex projects into it), so that an ordinary vertex hundreds of units off a segment reaching out to 1e200 must be kept; an evaluation is one Simplify call judged; non-trivial = simple input with >= 4 vertices from which at least one vertex was dropped; distinct by input hash",
 		Assumptions: []string{"'terminates' is decided as bounded progress on the hooked loops", "vertices pairwise distinct so that the subsequence match is unambiguous, except in the revisit cases, where any admissible embedding is searched for", "simplicity preservation is judged for open line strings that are simple by the exact test"},
 		Phases: []core.Phase{{Name: "curves", NumCases: func(t string) int {
 			if t == "thorough" {
@@ -561,9 +561,9 @@ func runFar(c *core.Ctx, idx int) {
 	tiny := false
 	if r.Chance(0.2) {
 		// the ordinary part itself tiny: 1e-120 .. 1e-3 next to 1e20 .. 1e300
-		// (not below 1e-60, and then no far vertex beyond 1e200: with a ratio of 1e300 and more
-		// the small component of the unit vector along the chord is no float64 any more)
-		scale = math.Pow(10, r.Range(-60, -3))
+		// (then only ONE end is far: between two far ends a tiny vertex needs the small component
+		// of the unit vector along the chord, which is no float64 any more at a ratio of 1e300)
+		scale = math.Pow(10, r.Range(-120, -3))
 		tiny = true
 		c.Count("far.ordinary_part_tiny")
 	}
@@ -576,9 +576,7 @@ func runFar(c *core.Ctx, idx int) {
 			h = r.Range(0.6e308, 1.79e308) // the difference of two such ordinates of opposite sign is not a float64
 			c.Count("far.end_in_the_last_binade")
 		}
-		if tiny && h > 1e200 {
-			h = math.Pow(10, r.Range(20, 200))
-		}
+
 		sx, sy := 1.0, 1.0
 		if r.Chance(0.5) {
 			sx = -1
@@ -606,6 +604,9 @@ func runFar(c *core.Ctx, idx int) {
 		}
 	}
 	which := r.Intn(3)
+	if tiny {
+		which = r.Intn(2)
+	}
 	if which != 1 {
 		pts[0] = far()
 	}
